@@ -218,6 +218,7 @@ UnpackB(T, cx, j) ==
     [] T[1] = "opt" -> IF IsNone(j) THEN Ok(None) ELSE Unpack(T[2], cx, j)
     [] T[1] = "union" -> UnpackUnion(T[2], cx, j)
     [] T[1] = "newtype" -> Unpack(T[3], cx, j)
+    [] T[1] = "stype" -> LET r == Unpack(T[3], cx, j) IN IF IsOk(r) THEN Ok(<<"sobj", T[2], r[2]>>) ELSE r
     [] T[1] \in {"final", "annotated"} -> Unpack(T[2], cx, j)
     [] T[1] \in {"fwd", "tvarc", "tvarb"} -> Unpack(T[3], cx, j)
     [] T[1] = "dc" -> FromDict(T, cx, j)
@@ -256,6 +257,7 @@ Conforms(T, v) ==
     [] T[1] = "opt" -> IsNone(v) \/ Conforms(T[2], v)
     [] T[1] = "union" -> \E i \in DOMAIN T[2] : Conforms(T[2][i], v)
     [] T[1] = "newtype" -> Conforms(T[3], v)
+    [] T[1] = "stype" -> v[1] = "sobj" /\ v[2] = T[2] /\ Conforms(T[3], v[3])
     [] T[1] \in {"final", "annotated"} -> Conforms(T[2], v)
     [] T[1] \in {"fwd", "tvarc", "tvarb"} -> Conforms(T[3], v)
     [] T[1] = "dc" -> v[1] = "obj" /\ v[2] = T[2] /\ Len(v[3]) = Len(T[3]) /\
